@@ -95,6 +95,15 @@ fn c07(rng: &mut Rng, idx: usize) -> Case {
         0 => return c07_probe_k2(rng),
         1 => return c07_probe_k3(),
         2 => return c07_prefix_regression(),
+        3 => {
+            // round trip of an ontology of 70 000 terms whose records list every term
+            // (implementation against the harness oracle only: beyond what the model can hold)
+            let mut c = Case::new("big-roundtrip");
+            c.op(format!("bigarena 70000 {}", rng.next()));
+            c.stat("big_round_trips", 1);
+            c.nontrivial = true;
+            return c;
+        }
         _ => {}
     }
     let path = rng.below(6); // 0-2 builder, 3-5 bytes v1..v3
